@@ -173,3 +173,9 @@ def run(ctx):
                         "fresh objects are built in-process with the constructors pkg/mosn uses at start-up (NewRouters, NewCluster + host handler, "
                         "NewClusterManagerSingleton, ParseListenerConfig + AddListener), not by a second MOSN process",
                         "concurrent lookups: one updater goroutine per scenario (xDS and the admin API serialise updates), windows from call/return order"]
+    # system-level part: real traffic through the in-process MOSN while route table and host sets are replaced
+    import sys_part
+    sys_part.run(ctx, "C12")
+    ctx.assumptions += ["system part (spec/system/Mosn.tla): HTTP/1 traffic of 3-6 clients for 1.2 s per round while one goroutine "
+                        "replaces the route table (A<->B) and one the host sets; every request must be routed by one live table version, "
+                        "sent to a member of one live host-set version and answered 200"]
